@@ -130,8 +130,53 @@ def codecs(P):
                             raise AnalysisError('%s: struct format %r has width %d under the table key %r' % (f.qualname, v.value, w, k.value))
                         fm[w] = v.value
                     direction = 'pack' if U(n.func).endswith('pack') and not U(n.func).endswith('unpack') else 'unpack'
+            elif isinstance(n, ast.Call) and isinstance(n.func, ast.Attribute) and n.func.attr in ('pack', 'unpack') and \
+                    isinstance(n.func.value, ast.Name):
+                # a pre-compiled module-level struct:  DOUBLE = struct.Struct('<d');  DOUBLE.pack(v)
+                cn = m.const_nodes.get(n.func.value.id)
+                if isinstance(cn, ast.Call) and U(cn.func) in ('struct.Struct', 'Struct') and cn.args and \
+                        isinstance(cn.args[0], ast.Constant) and isinstance(cn.args[0].value, str):
+                    fmt = cn.args[0].value
+                    try:
+                        w = struct.calcsize(fmt)
+                    except struct.error:
+                        raise AnalysisError('bad struct format %r in %s' % (fmt, f.qualname))
+                    fm[w] = fmt
+                    direction = 'pack' if n.func.attr == 'pack' else 'unpack'
+        # the format held in a local chosen by the width of the buffer:  if len(b) == 4: fmt = '<I' ..; unpack(fmt, b)
+        for n in ast.walk(f.node):
+            if isinstance(n, ast.Call) and U(n.func) in ('struct.pack', 'struct.unpack') and n.args and isinstance(n.args[0], ast.Name):
+                for a in ast.walk(f.node):
+                    if isinstance(a, ast.Assign) and len(a.targets) == 1 and U(a.targets[0]) == n.args[0].id and \
+                            isinstance(a.value, ast.Constant) and isinstance(a.value.value, str):
+                        try:
+                            w = struct.calcsize(a.value.value)
+                        except struct.error:
+                            raise AnalysisError('bad struct format %r in %s' % (a.value.value, f.qualname))
+                        p = parent(a)
+                        guard = None
+                        if isinstance(p, ast.If) and isinstance(p.test, ast.Compare) and U(p.test.left).startswith('len(') and \
+                                isinstance(p.test.comparators[0], ast.Constant) and a in p.body:
+                            guard = p.test.comparators[0].value
+                        if guard is not None and guard != w:
+                            raise AnalysisError('%s: struct format %r has width %d under a len == %d guard' % (f.qualname, a.value.value, w, guard))
+                        fm[w] = a.value.value
+                        direction = 'pack' if U(n.func).endswith('pack') and not U(n.func).endswith('unpack') else 'unpack'
         if fm:
             out[f.name] = Codec(f.name, fm, direction)
+    # codecs that delegate to another codec of the module:  return int_to_bytes(int(x))
+    changed = True
+    while changed:
+        changed = False
+        for f in m.functions.values():
+            if f.name in out:
+                continue
+            rets = [r for r in ast.walk(f.node) if isinstance(r, ast.Return) and isinstance(r.value, ast.Call)]
+            if len(rets) == 1 and isinstance(rets[0].value.func, ast.Name) and rets[0].value.func.id in out and \
+                    len([c for c in ast.walk(f.node) if isinstance(c, ast.Call) and isinstance(c.func, ast.Name) and c.func.id in out]) == 1:
+                src = out[rets[0].value.func.id]
+                out[f.name] = Codec(f.name, dict(src.fmts), src.direction)
+                changed = True
     if len(out) < 6:
         raise AnalysisError('expected the struct codecs of utils.py, found only %s' % sorted(out))
     return out
